@@ -9,6 +9,7 @@ import random
 from .. import common as C
 from .. import contracts as K
 from .. import gen as G
+from .. import judge as J
 from ..framework import Check
 
 
@@ -114,6 +115,7 @@ class C16(Check):
         # independent specification: substitute sequentially; interface by the prescribed rule
         ins, outs, a, g = list(c["ins"]), list(c["outs"]), list(c["a"]), list(c["g"])
         reject = False
+        states = []      # (assumptions, guarantees) after every substitution performed before a rejection
         for s, d in maps:
             if s == d or (s not in ins and s not in outs):
                 continue
@@ -127,13 +129,27 @@ class C16(Check):
                 side[side.index(s)] = d
             a = [subst_term(t, s, d) for t in a]
             g = [subst_term(t, s, d) for t in g]
+            states.append((a, g))
+
+        def unsat_prefix():
+            # every intermediate contract is rebuilt (and its guarantees simplified): ValueError is the documented outcome as soon
+            # as one of them has jointly unsatisfiable assumptions and guarantees
+            # (flagged only when satisfiable with a margin: a float LP may call a razor-thin system infeasible)
+            def tight(t):
+                return {"c": t["c"], "k": t["k"] - 1e-6 * (1 + abs(t["k"]))}
+            return any(J.feasible([tight(t) for t in list(aa) + list(gg)])[0] is not True for aa, gg in states)
+
         if reject:
+            if impl.get("err") == "ValueError" and unsat_prefix():
+                return None   # an earlier mapping of the sequence already produced an unsatisfiable contract
             if impl.get("err") != "IncompatibleArgsError":
                 return {"signature": "rename:both-input-and-output-not-rejected", "what": str(impl)[:200], "witness": case}
             return None
         if "err" in impl:
             if impl["err"] == "ValueError":
-                return None   # re-simplification of an unsatisfiable contract
+                if unsat_prefix():
+                    return None   # re-simplification of an unsatisfiable contract
+                return {"signature": "rename:ValueError-on-satisfiable", "what": "ValueError although every intermediate contract is satisfiable", "witness": case}
             return {"signature": "rename:legal-renaming-failed:" + impl["err"], "what": str(impl)[:200], "witness": case}
         r = impl["ok"]
         if r["ins"] != ins or r["outs"] != outs:
